@@ -146,7 +146,8 @@ class _InlineFunction(XPathFunction):
         if self.varnames is None:
             self.varnames = []
 
-        assert self.body is not None
+        if self.body is None:
+            raise self.error('XPTY0004', "a function test is not a function item")
         if self.label == 'inline partial function':
             k = 0
             for varname, sequence_type, tk in zip(self.varnames, self.sequence_types, self):
